@@ -997,6 +997,12 @@ def helix_awk(*args, **kwargs) -> HelixAwkwardArray:
         # the same for a position written as a record OF coordinate lists
         position = ak.zip({"x": position.x, "y": position.y, "z": position.z}, with_name="Vector3D")
 
+        # ... and for a momentum written as a record OF px / py / pz lists, whatever the record is named
+        if "px" in momentum.fields:
+            momentum = ak.zip(
+                {"px": momentum.px, "py": momentum.py, "pz": momentum.pz}, with_name="Momentum3D"
+            )
+
         # compute helix parameters
         kappa = charge / momentum.pt
         phi0 = (momentum.phi - np.pi / 2) % (2 * np.pi)
